@@ -14,6 +14,7 @@ class Spec:
     rule = ""
     assumptions = []
     no_longer_checked = ""
+    contract_fn = None      # checker entry that returns the first call breaking the APPLICATION's side of the contract
 
     def coq_targets(self):
         """make targets this property needs: its theorems, the monitors and checkers (never another property's obligations)"""
@@ -62,6 +63,10 @@ def shrink(spec, line, which):
         for cand in spec.shrink_candidates(line, v):
             v2 = judge(spec, cand, which)
             if v2 is not None:
+                if spec.contract_fn and which == spec.monitor_fn[0]:
+                    b = judge(spec, cand, spec.contract_fn)
+                    if b is not None and b[0] <= v2[0]:
+                        continue        # dropping a call made the remaining ones reuse an identifier in flight
                 line, v = cand, v2
                 changed = True
                 break
@@ -158,6 +163,19 @@ def run(spec, tier, seed, t0):
         if KP != P:
             continue        # reported by the check of the property the finding belongs to
         print("KNOWN-FINDING: property=%s %s (seen in %d of %d cases this run)" % (P, known[code]["what"], len(idxs), len(lines)))
+    # a contract-abiding stream in which the GENERATOR broke the application's side of the contract before the
+    # call the monitor objects to (Mon/MonContract.v = own_op_ok of the ownership theorems) is not judged
+    breaches = 0
+    if spec.contract_fn:
+        cand = [i for i, v in enumerate(v_mon) if v is not None]
+        if cand:
+            v_con = C.run_checker([renamed(lines[i], spec.contract_fn) for i in cand])
+            for i, b in zip(cand, v_con):
+                if b is not None and b[0] <= v_mon[i][0]:
+                    v_mon[i] = None
+                    breaches += 1
+            if breaches:
+                print("NOTE: %d generated histories broke the application contract themselves (not judged)" % breaches)
     mon_fail = [i for i, v in enumerate(v_mon) if v is not None]
     cor_fail = [i for i, v in enumerate(v_model) if v is not None]
     violations = 0
@@ -179,6 +197,9 @@ def run(spec, tier, seed, t0):
         extra = [l.rstrip("\n") for l in open(extra_path) if l.strip()]
         v2 = C.run_checker([renamed(l, spec.monitor_fn[0]) for l in extra])
         hit = [j for j, v in enumerate(v2) if v is not None]
+        if spec.contract_fn and hit:
+            vb = C.run_checker([renamed(extra[j], spec.contract_fn) for j in hit])
+            hit = [j for j, b in zip(hit, vb) if not (b is not None and b[0] <= v2[j][0])]
         if hit:
             small, v = shrink(spec, extra[hit[0]], spec.monitor_fn[0])
             p = C.write_replay(P, TG + "monitor-%d" % seed, spec.describe(small, v, "monitor (found by targeted search after a correspondence mismatch)"))
@@ -207,6 +228,7 @@ def run(spec, tier, seed, t0):
         traces_validated_against_impl=len(lines), correspondence_mismatches=len(cor_fail), monitor_failures=len(mon_fail),
         in_coq_crosscheck="%s; %s" % (d1, d2), generator=stats, corpus_cases=len(corpus),
         known_finding_hits={str(k): len(v) for k, v in known_hits.items()},
+        generator_contract_breaches=breaches,
         samples=samples, exhaustive=False)
     C.write_evidence(P, tier, seed, coverage, spec.assumptions, time.time() - t0, violations)
     for f in (cases_path, stats_path):
